@@ -91,55 +91,87 @@ def getOp (log : OpLog) (i : Nat) : Except Err Op :=
   | some op => .ok op
   | none => .error .badLog
 
+/-- the operation id after `UNDO_OP_DESC_PREFIX`, if the description has that prefix -/
+def undoTarget (d : Desc) (dflt : Nat) : Nat :=
+  match d with
+  | .undo t => t
+  | _ => dflt
+
+/-- the operation id after `REDO_OP_DESC_PREFIX`, if the description has that prefix -/
+def redoTarget (d : Desc) (dflt : Nat) : Nat :=
+  match d with
+  | .redo t => t
+  | _ => dflt
+
+/-- `target_op.parents().at_most_one()`: `Ok(Some(op))` / `Ok(None)` (root) / `Err(_)` (merge) -/
+def singleParent (ps : List Nat) : Except Err Nat :=
+  match ps with
+  | [p] => .ok p
+  | [] => .error .root
+  | _ => .error .merge
+
+def isUndo : Desc → Bool
+  | .undo _ => true
+  | _ => false
+
 /-- `cmd_undo` with the repository loaded at operation `head` -/
-def cmdUndo (log : OpLog) (head : Nat) (imm : Bool) : Except Err Outcome := do
-  let headOp ← getOp log head
-  -- the operation to undo: the head, or what the previous undo restored to
-  let target := match headOp.desc with
-    | .undo t => t
-    | _ => head
-  let targetOp ← getOp log target
-  let parent ← match targetOp.parents with
-    | [p] => pure p
-    | [] => throw Err.root
-    | _ => throw Err.merge
-  let parentOp ← getOp log parent
-  -- restore directly to the original operation if the parent is an undo-operation
-  let restoreTo := match parentOp.desc with
-    | .undo t => t
-    | _ => parent
-  let restoreOp ← getOp log restoreTo
-  pure (finish headOp.view (viewWithDesiredPortionsRestored restoreOp.view headOp.view defaultWhat)
-    (.undo restoreTo) imm)
+def cmdUndo (log : OpLog) (head : Nat) (imm : Bool) : Except Err Outcome :=
+  match getOp log head with
+  | .error e => .error e
+  | .ok headOp =>
+    -- the operation to undo: the head, or what the previous undo restored to
+    match getOp log (undoTarget headOp.desc head) with
+    | .error e => .error e
+    | .ok targetOp =>
+      match singleParent targetOp.parents with
+      | .error e => .error e
+      | .ok parent =>
+        match getOp log parent with
+        | .error e => .error e
+        | .ok parentOp =>
+          -- restore directly to the original operation if the parent is an undo-operation
+          match getOp log (undoTarget parentOp.desc parent) with
+          | .error e => .error e
+          | .ok restoreOp =>
+            .ok (finish headOp.view
+              (viewWithDesiredPortionsRestored restoreOp.view headOp.view defaultWhat)
+              (.undo (undoTarget parentOp.desc parent)) imm)
 
 /-- `cmd_redo` -/
-def cmdRedo (log : OpLog) (head : Nat) (imm : Bool) : Except Err Outcome := do
-  let headOp ← getOp log head
-  let target := match headOp.desc with
-    | .redo t => t
-    | _ => head
-  let targetOp ← getOp log target
-  match targetOp.desc with
-  | .undo _ =>
-    let parent ← match targetOp.parents with
-      | [p] => pure p
-      | _ => throw Err.internal
-    let parentOp ← getOp log parent
-    let restoreTo := match parentOp.desc with
-      | .redo t => t
-      | _ => parent
-    let restoreOp ← getOp log restoreTo
-    pure (finish headOp.view (viewWithDesiredPortionsRestored restoreOp.view headOp.view defaultWhat)
-      (.redo restoreTo) imm)
-  | _ => throw Err.nothingToRedo
+def cmdRedo (log : OpLog) (head : Nat) (imm : Bool) : Except Err Outcome :=
+  match getOp log head with
+  | .error e => .error e
+  | .ok headOp =>
+    match getOp log (redoTarget headOp.desc head) with
+    | .error e => .error e
+    | .ok targetOp =>
+      if isUndo targetOp.desc then
+        -- `.exactly_one()`, else "Undo operation should have a single parent"
+        match targetOp.parents with
+        | [parent] =>
+          match getOp log parent with
+          | .error e => .error e
+          | .ok parentOp =>
+            match getOp log (redoTarget parentOp.desc parent) with
+            | .error e => .error e
+            | .ok restoreOp =>
+              .ok (finish headOp.view
+                (viewWithDesiredPortionsRestored restoreOp.view headOp.view defaultWhat)
+                (.redo (redoTarget parentOp.desc parent)) imm)
+        | _ => .error .internal
+      else .error .nothingToRedo
 
 /-- `cmd_op_restore` -/
 def cmdRestore (log : OpLog) (head target : Nat) (what : List What) (imm : Bool) :
-    Except Err Outcome := do
-  let headOp ← getOp log head
-  let targetOp ← getOp log target
-  pure (finish headOp.view (viewWithDesiredPortionsRestored targetOp.view headOp.view what)
-    .regular imm)
+    Except Err Outcome :=
+  match getOp log head with
+  | .error e => .error e
+  | .ok headOp =>
+    match getOp log target with
+    | .error e => .error e
+    | .ok targetOp =>
+      .ok (finish headOp.view (viewWithDesiredPortionsRestored targetOp.view headOp.view what)
+        .regular imm)
 
 /-- three-way merge of one opaque portion, where it is trivial -/
 def mergePortion (cur base other : Nat) : Option Nat :=
@@ -164,18 +196,23 @@ def mergeView (cur base other : View) : Option View :=
 
 /-- `cmd_op_revert`; `ok none` = the merge is outside the modelled cases -/
 def cmdRevert (log : OpLog) (head target : Nat) (what : List What) (imm : Bool) :
-    Except Err (Option Outcome) := do
-  let headOp ← getOp log head
-  let targetOp ← getOp log target
-  let parent ← match targetOp.parents with
-    | [p] => pure p
-    | [] => throw Err.root
-    | _ => throw Err.merge
-  let parentOp ← getOp log parent
-  match mergeView headOp.view targetOp.view parentOp.view with
-  | none => pure none
-  | some merged =>
-    pure (some (finish headOp.view (viewWithDesiredPortionsRestored merged headOp.view what)
-      .regular imm))
+    Except Err (Option Outcome) :=
+  match getOp log head with
+  | .error e => .error e
+  | .ok headOp =>
+    match getOp log target with
+    | .error e => .error e
+    | .ok targetOp =>
+      match singleParent targetOp.parents with
+      | .error e => .error e
+      | .ok parent =>
+        match getOp log parent with
+        | .error e => .error e
+        | .ok parentOp =>
+          match mergeView headOp.view targetOp.view parentOp.view with
+          | none => .ok none
+          | some merged =>
+            .ok (some (finish headOp.view (viewWithDesiredPortionsRestored merged headOp.view what)
+              .regular imm))
 
 end JjModel.Undo
